@@ -47,6 +47,7 @@ fn main() {
                 "C01" => checks::c01::run(tier, seed, &known),
                 "C02" => checks::c02::run(tier, seed, &known),
                 "C03" => checks::c03::run(tier, seed, &known),
+                "C10" => checks::c10::run(tier, seed, &known),
                 _ => {
                     eprintln!("harness error: no check for {id}");
                     std::process::exit(2);
